@@ -3,6 +3,10 @@
 import json
 MC="model_checking"; EX="exploration"; FE="fault_enumeration"
 checks = {
+ "C10": dict(level=MC, design="DESIGN.md §4 C10",
+   text="the real client runs under a controlled scheduler (all goroutines, locks, channels and the connection instrumented); for each of 40 transcripts and every byte offset of the server stream the connection is cut with EOF / read error / stall+read-timeout / stall+Close, and a write error is injected at every client write call; within each fault scenario every schedule up to the deviation bound is executed; the scheduler itself decides termination (all threads finished) - no clock",
+   note="scripted peer; caller honours the streaming contract; STARTTLS transcripts excluded (crypto/tls is not instrumented); bound 0 quick / 1 thorough with a per-scenario execution cap that is reported",
+   technique="stateless model checking of the implementation: exhaustive fault-point enumeration x deviation-bounded schedule exploration under a controlled scheduler"),
  "C15": dict(level=MC, design="DESIGN.md §4 C15",
    text="explicit-state BFS (to closure) over AddNum/AddRange/AddSet sequences on the real set types against an explicit-membership model, every transition executed on the real code; exhaustive text enumeration against an independent ABNF recogniser",
    note="bounded endpoint alphabet {1,2,3,4,6,M-2,M-1,M,*}; probe universe {1..8,M-3..M}; Nums() only for static cardinality <= 10^4, in a resource-limited worker",
